@@ -259,7 +259,6 @@ func (it *stringIter) next() tuple {
 	return okv
 }
 
-
 // ------------------------------------------------------------------------
 // Maps: insertion-ordered, keyed by a canonical string of the (concrete) key.
 
